@@ -569,6 +569,10 @@ class ExecBase:
                 ci = self.closure_class_attr(st1, cls, attr)
                 if ci is not None:
                     return k(st1, ci)
+                if len(o.classes) > 1 and any(field_decl(c2, attr)[1] is not None or source.find_method(c2, attr) for c2 in o.classes if c2 != cls):
+                    # one of several possible classes lacks the attribute the others declare: Python raises AttributeError there
+                    self.assumptions.add("class %s has no attribute .%s (not declared in the field schema, no such method)" % (cls, attr))
+                    return self.raise_(st1, ctx, "AttributeError", line)
                 raise Unsupported("attribute %s.%s (line %s)" % (cls, attr, line))
             return self.for_classes(st, o, per_class)
         if isinstance(o, VFunc) and o.kind == "class":
@@ -637,8 +641,10 @@ class ExecBase:
             it = self.norm_index(st, it, n)
             inb = z3.And(0 <= it, it < n)
             if self.allows(ctx, "IndexError"):
+                # Python's rule exactly: -n <= i < 0 addresses n + i, anything outside [-n, n) raises
                 return self.branch(st, inb, lambda s: k(s, list_get(s, o, it)),
-                                   lambda s: self.raise_(s, ctx, "IndexError", line))
+                                   lambda s: self.branch(s, z3.And(-n <= it, it < 0), lambda s2: k(s2, list_get(s2, o, n + it)),
+                                                         lambda s2: self.raise_(s2, ctx, "IndexError", line)))
             self.oblige(st, "line%s::index-in-range" % line, inb, line)
             return k(st, list_get(st, o, it))
         if isinstance(o, VSeq):
